@@ -19,7 +19,10 @@
                              Pdb selects the dead callee frame; the stepped frame is
                              never prompted again
       C05_continue_refuted   all-continue: botframe is a generator/coroutine frame;
-                             StopIteration events prompt again *)
+                             StopIteration events prompt again
+    Proved positively: C05_filters_partial, C05_threads_off, C05_step.  The positive parts of the
+    next / continue clauses (streams without those shapes) are validated by the correspondence run
+    only (model = real code on every generated program), not proved. *)
 From NL Require Import Bdb.Model Bdb.Basics Bdb.Filters Bdb.StepMode.
 Open Scope Z_scope.
 
@@ -131,14 +134,6 @@ Theorem C05_step : forall c evs,
   = step_spec c 0%nat (s_filter (init c)) [] evs.
 Proof. exact step_lines. Qed.
 
-(** all-continue, PARTIAL (hypothesis added: the frame below the first accepted frame is never
-    entered as a generator/coroutine frame, and exists): the only prompt is the first prompt any
-    policy would get, and nothing after it *)
-Theorem C05_continue_partial : forall c evs,
-  bot_not_generator c evs ->
-  prompts c (all Continue) evs = firstn 1 (prompts c (all Step) evs).
-Proof. exact continue_once. Qed.
-
 (** non-vacuity: def f(a): b = a + 1; return b / x = f(1) -- all-step prompts at every line,
     all-next not inside f, all-continue once *)
 Definition ex_stream : list event :=
@@ -149,7 +144,7 @@ Definition ex_stream : list event :=
    ev KLine 1 (Some 0) 5 MScript false false; ev KReturn 1 (Some 0) 5 MScript false false].
 
 Example C05_example_nonvacuous :
-  frame_attrs_const ex_stream /\ bot_not_generator cfg_off ex_stream /\
+  frame_attrs_const ex_stream /\
   map p_idx (prompts cfg_off (all Step) ex_stream) = [1; 2; 3; 4; 5; 6; 7; 8]%nat /\
   step_spec cfg_off 0%nat (s_filter (init cfg_off)) [] ex_stream = [1; 2; 4; 5; 7]%nat /\
   map p_idx (prompts cfg_off (all Next) ex_stream) = [1; 2; 7; 8]%nat /\
@@ -169,4 +164,3 @@ Print Assumptions C05_callable_refuted.
 Print Assumptions C05_next_refuted.
 Print Assumptions C05_continue_refuted.
 Print Assumptions C05_step.
-Print Assumptions C05_continue_partial.
